@@ -7,6 +7,7 @@
 EXTENDS RetryI, Json
 VARIABLE hist
 cRanges == { << <<500, 599>> >>, << <<429, 429>>, <<500, 599>> >>, << <<404, 404>>, <<500, 503>> >> }
+cRangesX == { << <<500, 599>> >> }
 GInit == IInit /\ hist = <<[ev |-> "reset", mode |-> mode, A |-> A, cd |-> cd, mult |-> mult, ranges |-> ranges]>>
 GNext == INext /\ hist' = Append(hist, last')
 GSpec == GInit /\ [][GNext]_<<vars, hist>>
